@@ -24,12 +24,17 @@ def extra(tier, rng, ev, rep, tmp):
         ins = [w for w in F.enriched_inputs(Gb, 2, extra_len=3, rng=rng, alphabet=('X', 'Y', 'Z'))]
         specs.append({'G': G, 'ka': False, 'ph': True, 'inputs': ins, 'explicit': True, 'collapse': True, 'only_explicit': True,
                       'allow_cyclic': True, 'family': 'F_rand'})
+    from . import mtok
+    specs += mtok.specs(C.scale(500 if tier == 'quick' else 5000), rng, explicit=True, collapse=True, only_explicit=True)
     cases = [c for c in C.pmap(c03.observe_case, specs) if not c['skip']]
     for c in cases:
         ev.count('bnf_grammars')
         ev.count('results_skipped_more_than_300_expansions', c.get('too_ambiguous', 0))
         ev.count('bnf_cyclic' if c['cyclic'] else 'bnf_acyclic')
         for i in c['inputs']:
+            if c.get('multitok'):
+                ev.count('multitok_inputs')
+                ev.count('multitok_inputs_with_several_tokenisations', len(i['toks']) > 1)
             for o in i['exp']:
                 ev.count('explicit_parses')
                 if o['out'] == 0 and '_ambig' in json.dumps(o['tree']):
